@@ -52,6 +52,9 @@ const (
 	OpFMul
 	OpFDiv
 	OpFNeg
+	OpFFloor
+	OpFCeil
+	OpFTrunc
 	OpFLt
 	OpFLe
 	OpFEq    // IEEE ==
@@ -690,6 +693,12 @@ func FUn(op Op, a *Term) *Term {
 		switch op {
 		case OpFNeg:
 			return F64(-x)
+		case OpFFloor:
+			return F64(math.Floor(x))
+		case OpFCeil:
+			return F64(math.Ceil(x))
+		case OpFTrunc:
+			return F64(math.Trunc(x))
 		case OpFIsNaN:
 			return BoolT(math.IsNaN(x))
 		case OpFIsInf:
@@ -697,7 +706,7 @@ func FUn(op Op, a *Term) *Term {
 		}
 	}
 	switch op {
-	case OpFNeg:
+	case OpFNeg, OpFFloor, OpFCeil, OpFTrunc:
 		return mk(op, 64, true, a, nil, nil, 0, "", nil)
 	default:
 		return mk(op, 0, false, a, nil, nil, 0, "", nil)
@@ -852,6 +861,12 @@ func (e *Evaluator) Eval(t *Term) uint64 {
 		v = math.Float64bits(math.Float64frombits(e.Eval(t.A)) / math.Float64frombits(e.Eval(t.B)))
 	case OpFNeg:
 		v = math.Float64bits(-math.Float64frombits(e.Eval(t.A)))
+	case OpFFloor:
+		v = math.Float64bits(math.Floor(math.Float64frombits(e.Eval(t.A))))
+	case OpFCeil:
+		v = math.Float64bits(math.Ceil(math.Float64frombits(e.Eval(t.A))))
+	case OpFTrunc:
+		v = math.Float64bits(math.Trunc(math.Float64frombits(e.Eval(t.A))))
 	case OpFLt:
 		v = b2u(math.Float64frombits(e.Eval(t.A)) < math.Float64frombits(e.Eval(t.B)))
 	case OpFLe:
@@ -924,7 +939,7 @@ var opNames = map[Op]string{
 	OpAdd: "bvadd", OpSub: "bvsub", OpMul: "bvmul", OpUDiv: "bvudiv", OpSDiv: "bvsdiv", OpURem: "bvurem", OpSRem: "bvsrem",
 	OpAnd: "bvand", OpOr: "bvor", OpXor: "bvxor", OpNot: "bvnot", OpNeg: "bvneg", OpShl: "bvshl", OpLShr: "bvlshr", OpAShr: "bvashr",
 	OpEq: "=", OpUlt: "bvult", OpUle: "bvule", OpSlt: "bvslt", OpSle: "bvsle", OpBAnd: "and", OpBOr: "or", OpBNot: "not", OpIte: "ite",
-	OpFAdd: "fp.add RNE", OpFSub: "fp.sub RNE", OpFMul: "fp.mul RNE", OpFDiv: "fp.div RNE", OpFNeg: "fp.neg",
+	OpFAdd: "fp.add RNE", OpFSub: "fp.sub RNE", OpFMul: "fp.mul RNE", OpFDiv: "fp.div RNE", OpFNeg: "fp.neg", OpFFloor: "fp.roundToIntegral RTN", OpFCeil: "fp.roundToIntegral RTP", OpFTrunc: "fp.roundToIntegral RTZ",
 	OpFLt: "fp.lt", OpFLe: "fp.leq", OpFEq: "fp.eq", OpFIsNaN: "fp.isNaN", OpFIsInf: "fp.isInfinite",
 }
 
